@@ -234,7 +234,7 @@ def check(tier, seed):
             small = C.shrink_list(case["ops"], lambda ops: oracle(ops, HX.run_history(case["prune"], ops)[0]) is not None)
             R.spec_violations.append((oracle(small, HX.run_history(case["prune"], small)[0]) or bad,
                                       {"prune": case["prune"], "ops": small}))
-        if not bad:
+        if not bad and (tier == "quick" or R.evaluations % 4 == 0):
             bad = subclass_check(case["prune"], case["ops"], outs)
             if bad:
                 R.spec_violations.append((bad, {"prune": case["prune"], "ops": case["ops"], "subclass": True}))
